@@ -22,8 +22,9 @@ from .. import impl_l1d as I
 from ..core import Check
 
 THEOREMS = {n: "Props.C12" for n in [
-    "C12_l1d_equivariant_partial", "C12_scale_laws_rational", "C12_ord_laws_rational",
-    "C12_loss_hypothesis_inhabited", "C12_l1d_equivariant_rational_partial"]}
+    "C12_l1d_equivariant", "C12_l1d_equivariant_nan_partial", "C12_tell", "C12_tell_pending",
+    "C12_remove_unfinished", "C12_ask", "C12_loss", "C12_scale_laws_rational", "C12_ord_laws_rational",
+    "C12_loss_hypothesis_inhabited", "C12_l1d_equivariant_rational", "C12_l1d_equivariant_rational_nan_partial"]}
 
 PREAMBLE = """From Coq Require Import ZArith PrimFloat List. Import ListNotations.
 From AV Require Import Base.Prelude Base.FloatUtil Model.L1D Run.L1DRun Run.L1DScaleRun.
@@ -274,7 +275,8 @@ def run(chk: Check) -> int:
                      "un-normalised while their range is zero (LossFlat; proved inhabited)",
                      "theorem closed for rationals with +-inf and positive rational factors; for IEEE doubles ScaleLaws/OrdLaws "
                      "hold for power-of-two factors absent overflow/underflow/NaN -- trusted, validated by the twin runs",
-                     "tell_many's batch path is not covered by the proof (theorem _partial), only by both twin runs",
+                     "with NaN values tell_many's batch path is outside the proof (theorem _nan_partial); without NaN every "
+                     "history in which the function returns always scalars or always vectors is covered",
                      "LearnerND: no theorem; the unchanged code is refuted by the twin run (F9)"])
 
 
